@@ -360,3 +360,82 @@ class PureEval:
 _NORET = object()
 _BREAK = object()
 _CONT = object()
+
+
+class BlockOutcome(Exception):
+    def __init__(self, kind, node=None):
+        self.kind, self.node = kind, node
+
+
+class BlockEval(PureEval):
+    """Straight-line evaluation of a short block over small concrete sets / scalars: exhaustive over an explicitly enumerated finite
+    domain of inputs (e.g. every subset of three flag names the compiler can set).  Supports assignment, set-valued augmented
+    assignment, the mutating set methods on local names, assert / raise (reported as outcomes), if, cast()."""
+
+    def run_block(self, stmts, env, stop=None):
+        """Run until `stop` (a node) is about to be evaluated; returns the env.  Raises BlockOutcome('raise'|'assert')."""
+        for st in stmts:
+            if stop is not None and any(x is stop for x in ast.walk(st)) and not isinstance(st, ast.If):
+                return env, True
+            if isinstance(st, ast.Expr) and isinstance(st.value, ast.Constant):
+                continue
+            if isinstance(st, ast.Assert):
+                if not self.ev(st.test, env):
+                    raise BlockOutcome("assert", st)
+                continue
+            if isinstance(st, ast.Raise):
+                raise BlockOutcome("raise", st)
+            if isinstance(st, ast.If):
+                env, hit = self.run_block(st.body if self.ev(st.test, env) else st.orelse, env, stop)
+                if hit:
+                    return env, True
+                continue
+            if isinstance(st, ast.Assign) and len(st.targets) == 1:
+                self._bind(st.targets[0], self.ev(st.value, env), env)
+                continue
+            if isinstance(st, ast.AnnAssign) and isinstance(st.target, ast.Name):
+                if st.value is not None:
+                    env[st.target.id] = self.ev(st.value, env)
+                continue
+            if isinstance(st, ast.AugAssign) and isinstance(st.target, ast.Name) and st.target.id in env:
+                env[st.target.id] = _BIN[type(st.op)](env[st.target.id], self.ev(st.value, env))
+                continue
+            if isinstance(st, ast.Expr):
+                self.ev(st.value, env)
+                continue
+            raise FevalError(f"statement {type(st).__name__} in a block")
+        return env, False
+
+    def ev(self, node, env):
+        if isinstance(node, ast.Call) and isinstance(node.func, ast.Name) and node.func.id == "cast" and len(node.args) == 2:
+            return self.ev(node.args[1], env)
+        if isinstance(node, ast.Call) and isinstance(node.func, ast.Attribute) and isinstance(node.func.value, ast.Name) and node.func.value.id in env:
+            base = env[node.func.value.id]
+            m = node.func.attr
+            if isinstance(base, (set, frozenset)):
+                args = [self.ev(a, env) for a in node.args]
+                if m == "pop" and not args:
+                    if len(base) != 1:
+                        raise FevalError("pop() from a set that is not a singleton")
+                    x = next(iter(base))
+                    env[node.func.value.id] = set(base) - {x}
+                    return x
+                if m in ("remove", "discard"):
+                    if m == "remove" and args[0] not in base:
+                        raise BlockOutcome("raise", node)
+                    env[node.func.value.id] = set(base) - {args[0]}
+                    return None
+                if m == "add":
+                    env[node.func.value.id] = set(base) | {args[0]}
+                    return None
+                if m in ("update", "difference_update", "intersection_update"):
+                    o = set(args[0])
+                    env[node.func.value.id] = {"update": set(base) | o, "difference_update": set(base) - o, "intersection_update": set(base) & o}[m]
+                    return None
+                if m in ("isdisjoint", "issubset", "issuperset", "union", "intersection", "difference", "copy"):
+                    return getattr(frozenset(base), m)(*args)
+        if isinstance(node, ast.Set):
+            return frozenset(self.ev(e, env) for e in node.elts)
+        if isinstance(node, ast.JoinedStr):
+            return "<text>"
+        return super().ev(node, env)
